@@ -190,7 +190,12 @@ func source(r *rng, layout string, sh []int, base int) (string, int) {
 		return fmt.Sprintf("new:rm:%s:%d;slice:0:%s", fints(big), base, strings.Join(parts, "/")), 1
 	case "mat": // materialised from a transposed tensor
 		p, i := source(r, "T", sh, base)
-		return p + fmt.Sprintf(";mat:%d", i), i + 1
+		q := p + fmt.Sprintf(";mat:%d", i)
+		if _, ok := shapeAfter("f64", q, i+1); !ok {
+			// the transpose was a no-op, Materialize returns the tensor itself
+			return p, i
+		}
+		return q, i + 1
 	}
 	panic("layout " + layout)
 }
